@@ -8,6 +8,9 @@ Generates lean/QV/Generated/ZoneFileDispatch.lean with
   parseTypeRejected   types `parse_type` refuses, with the error kind
   rdataHandlers       per `parse_*_rdata` handler: the `Expected…` error kind given to
                       `check_backslash_hash` and the validator applied to RDATA in RFC 3597 form
+  wksMaskMsbFirst     which bit of a WKS bitmap octet `serialize_in_wks` (src/rr/rdata/std13.rs)
+                      sets for port p: `1 << (p % 8)` (false: least significant bit first, finding
+                      D18) or `0x80 >> (p % 8)` (true: the order of RFC 1035 §3.4.2)
 
 The model dispatches through these tables; the C24 theorems are stated over them, so changing
 an arm re-checks the proofs.
@@ -87,7 +90,28 @@ def register(extra, mod):
                 raise mod.ExtractError(f"{rel}: {name}: validator not understood: {v!r}")
             handlers.append((name, m1.group(1), validator))
 
-        out = mod.gen_header("zone-file RDATA dispatch (parse_rdata, parse_type, parse_*_rdata)", [rel, "src/rr/rr_type.rs", "src/class.rs"])
+        # ---- serialize_in_wks: octet index and bit mask of a port ----
+        wrel = "src/rr/rdata/std13.rs"
+        wsrc = mod.strip_comments(mod.read(repo, wrel))
+        wb = re.sub(r"\s+", " ", mod.block_after(wsrc, r"\bfn\s+serialize_in_wks\s*\(", f"{wrel}: fn serialize_in_wks"))
+        if not re.search(r"let offset = \(\*port as usize\) / 8 ;", wb.replace(";", " ;")):
+            raise mod.ExtractError(f"{wrel}: serialize_in_wks: `let offset = (*port as usize) / 8;` not found")
+        mm = re.search(r"let mask(?: ?: ?u8)? = ([^;]+);", wb)
+        if not mm:
+            raise mod.ExtractError(f"{wrel}: serialize_in_wks: `let mask = …;` not found")
+        mask = re.sub(r"\s+", "", mm.group(1)).replace("_", "")
+        mask = re.sub(r"(?<=[0-9a-fA-F])u(8|16|32|size)\b", "", mask)
+        mask = mask.replace("(*port%8)", "(port%8)").replace("*port%8", "port%8")
+        if mask in ("1<<(port%8)",):
+            wks_msb = False
+        elif mask in ("0x80>>(port%8)", "128>>(port%8)", "1<<(7-port%8)", "1<<(7-(port%8))"):
+            wks_msb = True
+        else:
+            raise mod.ExtractError(f"{wrel}: serialize_in_wks: bit mask not understood: {mm.group(1).strip()!r}")
+        if not re.search(r"buf\[start_index \+ offset\] \|= mask ;", wb.replace(";", " ;")):
+            raise mod.ExtractError(f"{wrel}: serialize_in_wks: `buf[start_index + offset] |= mask;` not found")
+
+        out = mod.gen_header("zone-file RDATA dispatch (parse_rdata, parse_type, parse_*_rdata); WKS bit mask", [rel, "src/rr/rr_type.rs", "src/class.rs", wrel])
         out += "/-- `parse_rdata`: arms of `match rr_type` in source order: (types, class guard, handler) -/\n"
         out += "def parseRdataArms : List (List Nat × Option Nat × String) :=\n  ["
         out += ",\n   ".join("([" + ", ".join(str(t) for t in ts) + "], " + ("none" if g is None else f"some {g}") + ", " + mod.lean_str(h) + ")"
@@ -99,7 +123,10 @@ def register(extra, mod):
         out += "/-- per handler: (name, error kind of `check_backslash_hash`, validator of the RFC 3597 form) -/\n"
         out += "def rdataHandlers : List (String × String × String) :=\n  ["
         out += ",\n   ".join(f"({mod.lean_str(a)}, {mod.lean_str(b)}, {mod.lean_str(c)})" for a, b, c in handlers) + "]\n\n"
+        out += "/-- `serialize_in_wks`: the mask for port `p` in octet `p / 8` is `0x80 >> (p % 8)` (true, RFC 1035\n"
+        out += "    §3.4.2 with the bit numbering of §2.3.2) or `1 << (p % 8)` (false, known finding D18) -/\n"
+        out += f"def wksMaskMsbFirst : Bool := {'true' if wks_msb else 'false'}\n\n"
         out += "end QV.Gen\n"
-        return out, {"arms": len(arms), "rejected": len(rej), "handlers": len(handlers)}
+        return out, {"arms": len(arms), "rejected": len(rej), "handlers": len(handlers), "wks_mask_msb_first": wks_msb}
 
     extra.append(("ZoneFileDispatch.lean", gen))
